@@ -12,8 +12,8 @@ From YV Require Import lib.RA.
 
 Record orders := { o_load : mo; o_cas_s : mo; o_cas_f : mo; o_xchg : mo }.
 
-Inductive ppc := P0 | P1 | P2 | PDone.
-Inductive cpc := C0 | C1 | C2 | C4 | CDone.
+Inductive ppc := P0 | P1 | P2 | PDone | PFin.   (* PDone: exchanged, nothing to run; PFin: ran the continuation *)
+Inductive cpc := C0 | C1 | C2 | C4 | CAtt | CFin.   (* CAtt: CAS succeeded; CFin: read the result itself *)
 
 Record st := {
   hist : list msg;        (* history of the word; index = timestamp *)
@@ -46,7 +46,7 @@ Definition step (s : st) (e : ev) : option st :=
               race := race s |}
   | PReadK, P2, _ =>
       let '(r, ts, t) := na_access (pt s) 2 (k_ts s) in
-      Some {| hist := hist s; s_ts := s_ts s; k_ts := ts; pp := PDone; pt := t; cp := cp s; ct := ct s;
+      Some {| hist := hist s; s_ts := s_ts s; k_ts := ts; pp := PFin; pt := t; cp := cp s; ct := ct s;
               race := race s || r |}
   | CWriteK, _, C0 =>
       let '(r, ts, t) := na_access (ct s) 2 (k_ts s) in
@@ -68,14 +68,14 @@ Definition step (s : st) (e : ev) : option st :=
       | 0 =>
           let '(t, nm) := rmw_write (ct s) (o_cas_s o) (length (hist s)) m 1 in
           Some {| hist := hist s ++ [nm]; s_ts := s_ts s; k_ts := k_ts s; pp := pp s; pt := pt s;
-                  cp := CDone; ct := t; race := race s |}
+                  cp := CAtt; ct := t; race := race s |}
       | _ =>
           Some {| hist := hist s; s_ts := s_ts s; k_ts := k_ts s; pp := pp s; pt := pt s;
                   cp := C4; ct := a_read (ct s) (o_cas_f o) (length (hist s) - 1) m; race := race s |}
       end
   | CReadS, _, C4 =>
       let '(r, ts, t) := na_access (ct s) 1 (s_ts s) in
-      Some {| hist := hist s; s_ts := ts; k_ts := k_ts s; pp := pp s; pt := pt s; cp := CDone; ct := t;
+      Some {| hist := hist s; s_ts := ts; k_ts := k_ts s; pp := pp s; pt := pt s; cp := CFin; ct := t;
               race := race s || r |}
   | _, _, _ => None
   end.
